@@ -866,7 +866,7 @@ def check_small_vector_selection(ctx, unit, cls="frg::small_vector", rule="E.inl
                 if n.kind == "CtorInit" and n.get("field") and n.get("init") is not None:
                     iv = f.node(n.get("init"))
                     x = iv
-                    while x is not None and x.kind in ("ImplicitCastExpr", "ParenExpr") and x.children:
+                    while x is not None and x.kind in ("ImplicitCastExpr", "ParenExpr", "CXXDefaultInitExpr") and x.children:
                         x = x.children[0]
                     if x is not None and x.kind == "SubstNonTypeTemplateParmExpr" and iv.strip().cv() is not None:
                         capf, N = n.get("field"), iv.strip().cv()
@@ -965,7 +965,7 @@ def inline_layout(rec, fns):
             if n.kind == "CtorInit" and n.get("field") and n.get("init") is not None:
                 iv = f.node(n.get("init"))
                 x = iv
-                while x is not None and x.kind in ("ImplicitCastExpr", "ParenExpr") and x.children:
+                while x is not None and x.kind in ("ImplicitCastExpr", "ParenExpr", "CXXDefaultInitExpr") and x.children:
                     x = x.children[0]
                 if x is not None and x.kind == "SubstNonTypeTemplateParmExpr" and iv.strip().cv() is not None:
                     capf, N = n.get("field"), iv.strip().cv()
@@ -1986,7 +1986,7 @@ def check_capacity_storage_paired(ctx, unit, cls="frg::small_vector", rule="I.ca
                 if n.kind == "CtorInit" and n.get("field") and n.get("init") is not None:
                     iv = f.node(n.get("init"))
                     x = iv
-                    while x is not None and x.kind in ("ImplicitCastExpr", "ParenExpr") and x.children:
+                    while x is not None and x.kind in ("ImplicitCastExpr", "ParenExpr", "CXXDefaultInitExpr") and x.children:
                         x = x.children[0]
                     if x is not None and x.kind == "SubstNonTypeTemplateParmExpr" and iv.strip().cv() is not None:
                         capf, N = n.get("field"), iv.strip().cv()
@@ -2259,3 +2259,64 @@ def check_swap_targets(ctx, unit, classes, rule="O.swap-into-empty-storage"):
                 raise AnalysisBroken("anchor vanished: relocations / placement-news in swap of %s (found %d)" % (cls, n_t))
             ctx.inst(rule, "%s: swap" % cls, not bad, f.loc, "; ".join(sorted(set(bad))[:2]) if bad else
                      "%d relocation / construction targets, all inline storage or the inline array of a small operand" % n_t, f)
+
+
+def check_members_initialised(ctx, unit, classes, rule="I.members-initialised", exempt=()):
+    """Every constructor of the listed classes gives every scalar data member (integer, bool, pointer, enumeration) a value:
+    through a member initialiser, a default member initialiser, an assignment in its body, or a member function of the same
+    object called from its body that assigns it.  `T *a, *b = nullptr;` initialises b only; a defaulted constructor
+    initialises exactly the members that have a default member initialiser.  What a link field or a ticket counter holds
+    when the object is placed in recycled storage is otherwise whatever was there."""
+    from .rules_guard import write_of
+    ctx.rule(rule, "every constructor initialises every scalar data member of its class (member initialiser, default member "
+             "initialiser, assignment in the body, or an assigning member called from the body): no link, counter or flag starts "
+             "with the previous contents of its storage", 1)
+    byd = {f.did: f for f in unit.functions}
+    for cls in classes:
+        recs = unit.record(cls)
+        if not recs:
+            raise AnalysisBroken("anchor vanished: class %s in unit %s" % (cls, unit.name))
+        seen = set()
+        for rec in recs:
+            scal = [fl for fl in rec["fields"] if (fl.get("bits") or fl.get("ptr") or fl["t"] in ("bool", "float", "double") or fl.get("enum"))
+                    and not fl.get("extent") and (cls, fl["n"]) not in exempt]
+            need = [fl["n"] for fl in scal if not fl.get("dmi")]
+            ctors = [m for m in rec["methods"] if m.get("kind") == "ctor" and not m.get("deleted") and not m.get("copy") and not m.get("move")]
+            if not ctors:
+                # no constructor declared: the implicit one initialises what has a default member initialiser
+                key = (rec["uq"], "implicit")
+                if key not in seen and need and not rec.get("aggregate"):
+                    seen.add(key)
+                    ctx.inst(rule, "%s: implicit default constructor" % cls, False, rec["loc"],
+                             "member(s) %s have no default member initialiser and no constructor gives them a value" % need, None)
+                continue
+            for m in ctors:
+                f = byd.get(m["did"])
+                label = "%s::<ctor> at %s" % (cls, m["loc"].split("/")[-1])
+                if label in seen:
+                    continue
+                seen.add(label)
+                if f is None or not f.blocks and not any(n.kind == "CtorInit" for n in f.all_nodes()):
+                    if m.get("defaulted") or not m.get("userprovided"):
+                        ctx.inst(rule, label, not need, m["loc"], ("defaulted constructor; member(s) %s have no default member initialiser" % need)
+                                 if need else "defaulted constructor; every scalar member has a default member initialiser", None)
+                    continue
+                inits = [n for n in f.all_nodes() if n.kind == "CtorInit"]
+                if any(n.get("delegating") for n in inits):
+                    continue
+                have = {n.get("field") for n in inits if n.get("field") and n.d.get("init") is not None}
+                for n in f.all_nodes():
+                    w = write_of(n)
+                    if w and w[0] and len(w[0]) >= 2 and w[0][0] == "this":
+                        have.add(w[0][1])
+                    if n.is_call() and n.callee and n.callee.get("did") in byd and n.kind == "CXXMemberCallExpr":
+                        o = n.child("obj")
+                        if o is not None and path(o) == ("this",):
+                            g = byd[n.callee["did"]]
+                            for y in g.all_nodes():
+                                wy = write_of(y)
+                                if wy and wy[0] and len(wy[0]) >= 2 and wy[0][0] == "this":
+                                    have.add(wy[0][1])
+                miss = [x for x in need if x not in have]
+                ctx.inst(rule, label, not miss, f.loc, ("member(s) %s are given no value" % miss) if miss else
+                         "%d scalar members, all initialised" % len(scal), f)
